@@ -28,7 +28,7 @@ ASSUMPTIONS = [
 ]
 NCASES = {"quick": 8000, "thorough": 400000}
 NSHARDS = 16
-SHARD_TIMEOUT = {"quick": 600, "thorough": 3600}
+SHARD_TIMEOUT = {"quick": 300, "thorough": 3600}
 MOD = "vf.checks.c09"
 
 POOL = [float("-inf"), -3, -1.5, -1, -1.0, -0.0, 0, 0.0, 1, 1.0, 2, 2.5, 3, 3.0, 7, 2 ** 53, float(2 ** 53), 2 ** 53 + 1,
